@@ -146,6 +146,11 @@ v("bd-diag-reads-transposed-block", B, "        def diag(x, index):\n           
   "        def diag(x, index):\n            if isinstance(x, BlockSeries):\n                x = x[(index[1], index[0], *index[2:])]\n            if index[0] not in to_keep:\n                return x\n", ["C01"])
 v("bd-diag-returns-series-itself", B, "        def diag(x, index):\n            x = x[index] if isinstance(x, BlockSeries) else x\n            if index[0] not in to_keep:\n                return x\n",
   "        def diag(x, index):\n            if index[0] not in to_keep:\n                return x\n            x = x[index] if isinstance(x, BlockSeries) else x\n", ["C01"])
+v("ok-bd-diag-parameters-renamed", B, "        def diag(x, index):\n            x = x[index] if isinstance(x, BlockSeries) else x\n            if index[0] not in to_keep:\n                return x\n            if isinstance(x, sympy.MatrixBase):\n                return x.multiply_elementwise(to_keep[index[0]])\n            if sparse.issparse(x):\n                return x.multiply(to_keep[index[0]])\n            return x * to_keep[index[0]]\n",
+  "        def diag(value, idx):\n            value = value[idx] if isinstance(value, BlockSeries) else value\n            if idx[0] not in to_keep:\n                return value\n            if isinstance(value, sympy.MatrixBase):\n                return value.multiply_elementwise(to_keep[idx[0]])\n            if sparse.issparse(value):\n                return value.multiply(to_keep[idx[0]])\n            return value * to_keep[idx[0]]\n", [])
+v("bd-diag-parameters-renamed-wrong-mask", B, "        def diag(x, index):\n            x = x[index] if isinstance(x, BlockSeries) else x\n            if index[0] not in to_keep:\n                return x\n            if isinstance(x, sympy.MatrixBase):\n                return x.multiply_elementwise(to_keep[index[0]])\n            if sparse.issparse(x):\n                return x.multiply(to_keep[index[0]])\n            return x * to_keep[index[0]]\n",
+  "        def diag(value, idx):\n            value = value[idx] if isinstance(value, BlockSeries) else value\n            if idx[0] not in to_keep:\n                return value\n            if isinstance(value, sympy.MatrixBase):\n                return value.multiply_elementwise(to_keep[idx[0]])\n            if sparse.issparse(value):\n                return value.multiply(to_eliminate[idx[0]])\n            return value * to_keep[idx[0]]\n", ["C01"])
+v("ok-bd-h-eval-vararg-renamed", B, "        def H_eval(*index):\n            result = H_orig[index]\n", "        def H_eval(*key):\n            result = H_orig[key]\n", [])
 v("ok-bd-index-checked-annotated", B, "    index_checked = set()\n", "    index_checked: set[tuple[int, ...]] = set()\n", [])
 v("ok-bd-last-block-named", B, "        if H.shape[0] - 1 in fully_diagonalize:\n", "        last_block = H.shape[0] - 1\n        if last_block in fully_diagonalize:\n", [])
 v("bd-last-block-off-by-one", B, "        if H.shape[0] - 1 in fully_diagonalize:\n", "        last_block = H.shape[0]\n        if last_block in fully_diagonalize:\n", ["C20"])
